@@ -19,6 +19,13 @@ Emitted data (all text is `list Z` of code points):
                               `if k not in self.throttle_per_user:` and stores a from_limits() object
   stream_stores_dict_by_reference : bool   ThrottleStreamIO.__init__ does `self.throttles = throttles`
   stream_ops : list (method * wait direction * append direction)  for read / readline / write
+  stream_wait_untimed : bool  ThrottleStreamIO.wait(name) is: one task `asyncio.create_task(t.wait())` per
+                              throttle of that direction under `if t.limit:`, then exactly one await,
+                              `await asyncio.wait(tasks)` with NO timeout / return_when (so it resumes
+                              when the last sleep ends, whatever read_timeout / write_timeout the stream has)
+  per_user_never_removed : bool   self.throttle_per_user is only tested (`in` / `not in`), subscripted for
+                              reading, and stored under the guard above: no pop / del / clear / re-assignment
+                              (every other use of the attribute makes the translator fail closed)
   timeout_facts : list (site * keyword * expression text)          (used by C16)
 """
 import ast
@@ -285,6 +292,73 @@ def scan_common(path, timeouts, flags, ops):
             raise Unclassified(f"ThrottleStreamIO.{name}: {len(waits)} wait / {len(appends)} append calls")
         ops.append((name, waits[0], appends[0]))
 
+    flags["wait_untimed"] = wait_shape(method("ThrottleStreamIO", "wait"))
+
+
+def wait_shape(m):
+    """ThrottleStreamIO.wait(self, name):
+           tasks = []
+           for throttle in self.throttles.values():
+               curr_throttle = getattr(throttle, name)
+               if curr_throttle.limit:
+                   tasks.append(asyncio.create_task(curr_throttle.wait()))
+           if tasks:
+               await asyncio.wait(tasks)
+    True iff the only await of the method is `asyncio.wait(<tasks>)` with one positional argument and no
+    keyword (no timeout=, no return_when=), <tasks> is a list only ever appended with
+    `asyncio.create_task(<x>.wait())`, and no wait_for / timeout construct appears in the method."""
+    awaits = [n for n in ast.walk(m) if isinstance(n, ast.Await)]
+    if len(awaits) != 1:
+        return False
+    call = awaits[0].value
+    if not (
+        isinstance(call, ast.Call)
+        and ast.unparse(call.func) == "asyncio.wait"
+        and len(call.args) == 1
+        and isinstance(call.args[0], ast.Name)
+        and not call.keywords
+    ):
+        return False
+    tasks = call.args[0].id
+    inits = [
+        n for n in ast.walk(m)
+        if isinstance(n, ast.Assign) and any(isinstance(t, ast.Name) and t.id == tasks for t in n.targets)
+    ]
+    if len(inits) != 1 or not (isinstance(inits[0].value, ast.List) and not inits[0].value.elts):
+        return False
+    appended = 0
+    for n in ast.walk(m):
+        if isinstance(n, ast.Call) and isinstance(n.func, ast.Attribute) and isinstance(n.func.value, ast.Name) \
+                and n.func.value.id == tasks:
+            if n.func.attr != "append" or len(n.args) != 1:
+                return False
+            a = n.args[0]
+            ok = (
+                isinstance(a, ast.Call)
+                and ast.unparse(a.func) == "asyncio.create_task"
+                and len(a.args) == 1
+                and not a.keywords
+                and isinstance(a.args[0], ast.Call)
+                and isinstance(a.args[0].func, ast.Attribute)
+                and a.args[0].func.attr == "wait"
+                and not a.args[0].args
+                and not a.args[0].keywords
+            )
+            if not ok:
+                return False
+            appended += 1
+        if isinstance(n, (ast.With, ast.AsyncWith)):
+            return False
+        if isinstance(n, ast.Attribute) and n.attr in ("wait_for", "timeout", "timeout_at"):
+            return False
+        if isinstance(n, ast.Attribute) and "timeout" in n.attr:
+            return False
+        if isinstance(n, ast.Constant) and isinstance(n.value, str) and "timeout" in n.value and not isinstance(
+            getattr(n, "_parent", None), ast.Expr
+        ):
+            return False
+    return appended == 1
+
 
 def generate(src_dir):
     src = Path(src_dir)
@@ -338,5 +412,9 @@ def generate(src_dir):
         + emit.lst([f"({emit.text(a)}, {emit.text(b)}, {emit.text(c)})" for a, b, c in timeouts])
         + "."
     )
+    out.append(f"Definition stream_wait_untimed : bool := {emit.boolean(flags.get('wait_untimed', False))}.")
+    # scan_module raises Unclassified on any use of self.throttle_per_user other than `k [not] in`,
+    # `[k]` (load) and the guarded store: reaching this line means nothing removes or replaces entries
+    out.append("Definition per_user_never_removed : bool := true.")
     out.append("Definition translator_ok_wiring : bool := true.")
     return "\n".join(out) + "\n"
